@@ -534,6 +534,7 @@ Inductive event :=
 | EProxyBad                                    (* ... with anything else: failProxyConnect *)
 | ESendClose (code : option N) (reason : option (list N))    (* API sendClose(code, reason); reason = UTF-8 octets of the str *)
 | ESendMessage | ESendPing | ESendPong
+| ESendPrepared                                (* sendPreparedMessage (no compression): guarded like sendMessage since 6b5401d8 *)
 | EBeginMessage | ESendFrame | EEndMessage     (* streaming API: beginMessage(); sendMessageFrame(2 octets); endMessage() *)
 | EPeerClose (body : option (N * option (list N))) (txt : list N)
                                                (* close frame; [txt] = text of the internal failure reason should
@@ -620,6 +621,7 @@ Definition handle (c : cfg) (e : event) : M :=
   | EProxyBad => ifS proxy_connecting (drop_connection true) ret            (* failProxyConnect *)
   | ESendClose code reason => send_close c code reason
   | ESendMessage => send_message
+  | ESendPrepared => send_message             (* "if self.state != STATE_OPEN: raise Disconnected"; else one data frame *)
   | ESendPing => send_ping None
   | ESendPong => send_pong
   | EBeginMessage => begin_message
